@@ -122,7 +122,7 @@ impl Report {
             known: load_known(property),
             inner: Mutex::new(Inner::default()),
             replay_cmd: Mutex::new(vec![]),
-            max_new: 40,
+            max_new: 400,
         }
     }
 
